@@ -200,6 +200,58 @@ func runRespDispatch(tw *traceWriter, calls []string, coding string, mw bool) {
 		"sc": sc, "cl": cl, "uStatus": rec.Code, "uBytes": n, "failed": false, "coding": ""})
 }
 
+// a custom RouteSelector (Container.Router) that fails with errors of its own: whatever dispatch does with
+// them, the trailing filter must be told what the underlying writer received
+type failingSelector struct {
+	restful.CurlyRouter
+	kind string
+}
+
+type selectorError struct{ msg string }
+
+func (e selectorError) Error() string { return e.msg }
+
+func (s failingSelector) SelectRoute(webServices []*restful.WebService, httpRequest *http.Request) (*restful.WebService, *restful.Route, error) {
+	if httpRequest.URL.Path == "/r/fail" {
+		switch s.kind {
+		case "plain":
+			return nil, nil, fmt.Errorf("selector failed")
+		case "typed":
+			return nil, nil, selectorError{"selector failed (typed)"}
+		case "wrapped":
+			return nil, nil, fmt.Errorf("wrapped: %w", restful.NewError(404, "inner"))
+		case "service":
+			return nil, nil, restful.NewError(418, "teapot")
+		}
+	}
+	return s.CurlyRouter.SelectRoute(webServices, httpRequest)
+}
+
+func runRespSelectorError(tw *traceWriter, kind, coding string) {
+	c := restful.NewContainer()
+	c.Router(failingSelector{kind: kind})
+	c.EnableContentEncoding(coding != "")
+	var sc, cl int
+	c.Filter(func(req *restful.Request, resp *restful.Response, chain *restful.FilterChain) {
+		chain.ProcessFilter(req, resp)
+		sc, cl = resp.StatusCode(), resp.ContentLength()
+	})
+	ws := new(restful.WebService).Path("/r")
+	ws.Route(ws.GET("/x").To(func(req *restful.Request, resp *restful.Response) { resp.Write([]byte("x")) }))
+	c.Add(ws)
+	hr, _ := buildRequest("GET", "/r/fail", [][2]string{{"Accept-Encoding", coding}}, nil, false)
+	rec := httptest.NewRecorder()
+	pv := safely(func() { c.Dispatch(rec, hr) })
+	ok, data := decodeBody(wireHeader(rec).Get("Content-Encoding"), rec.Body.Bytes())
+	n := len(data)
+	if !ok {
+		n = -1
+	}
+	tw.emit(map[string]interface{}{"e": "rcase", "calls": []string{"selector-error:" + kind}, "pretty": restful.PrettyPrintResponses, "coding": coding, "budget": -1, "via": "dispatch", "mw": false})
+	tw.emit(map[string]interface{}{"e": "rret", "name": "trailing-filter", "hasErr": false, "err": false, "panic": pv,
+		"sc": sc, "cl": cl, "uStatus": rec.Code, "uBytes": n, "failed": false, "coding": ""})
+}
+
 func runResp(planPath, outPath string, seed int64) {
 	var p respPlan
 	readJSONFile(planPath, &p)
@@ -209,6 +261,11 @@ func runResp(planPath, outPath string, seed int64) {
 	defer func() { restful.PrettyPrintResponses = true }()
 	tw := newTraceWriter(outPath)
 	defer tw.close()
+	for _, kind := range []string{"plain", "typed", "wrapped", "service"} {
+		for _, coding := range []string{"", "gzip"} {
+			runRespSelectorError(tw, kind, coding)
+		}
+	}
 	cases := p.Cases
 	statusCalls := []string{"WriteHeader", "WriteEntity", "WriteEntityXml", "WriteHeaderAndEntity", "WriteEntityNil", "WriteAsXmlPretty", "WriteAsXml",
 		"WriteAsJson", "WriteJson", "WriteHeaderAndJson", "WriteHeaderAndXml", "WriteEntity406", "WriteErrorString", "WriteError", "WriteErrorNil", "WriteServiceError"}
@@ -226,6 +283,13 @@ func runResp(planPath, outPath string, seed int64) {
 		cases = append(cases, c)
 	}
 	for _, cs := range cases {
+		if len(cs.Calls) == 1 && strings.HasPrefix(cs.Calls[0], "selector-error:") {
+			// replay of a failing-selector observation
+			for _, coding := range []string{"", "gzip"} {
+				runRespSelectorError(tw, strings.TrimPrefix(cs.Calls[0], "selector-error:"), coding)
+			}
+			continue
+		}
 		for _, pretty := range []bool{true, false} {
 			total := runRespSeq(tw, cs.Calls, pretty, "", -1)
 			// every failure position (sampled when the sequence is long)
